@@ -17,7 +17,7 @@ from xmc.report import Run
 P = "C17"
 FAMILY = {"create_file": 0, "delete_file": 1, "rename_file": 2, "replace_file": 4, "create_directory": 5, "remove_directory": 6}
 PATHS = ("a", "b", "d", "d/a")
-WRITES = ((b"", None), (b"x", None), (b"xyz", 0), (b"yz", 1), (b"x", 4))
+WRITES = (("", None), ("x", None), ("xyz", 0), ("yz", 1), ("x", 4))  # payloads as str: events must survive JSON (replay files)
 READS = ((None, 9), (0, 0), (0, 2), (1, 2), (5, 2))
 
 
@@ -118,7 +118,7 @@ def expect(m, op):
         new[p] = b""
         return "ret", None, new
     if name == "write_data":
-        p, data, off = op[1], op[2], op[3]
+        p, data, off = op[1], op[2].encode("latin-1"), op[3]
         if p not in m or is_dir(m, p):
             return "raise", None, m
         cur = m[p]
@@ -184,6 +184,8 @@ class FsWorld(World):
         fs = NativeFilestore()
         pre = sandbox.tree()
         args = [Path(a) if isinstance(a, str) else a for a in op[1:]]
+        if op[0] == "write_data":
+            args[1] = op[2].encode("latin-1")
         obs = {"pre": [[p, k, None if c is None else c.hex()] for p, k, c in pre]}
         try:
             ret = getattr(fs, op[0])(*args)
@@ -281,7 +283,7 @@ def run(tier: str) -> int:
     ])
     depth = None
     paths = PATHS if tier == "quick" else PATHS + ("d/b",)
-    run_.bounds = {"paths": paths, "writes": [(d.decode(), o) for d, o in WRITES], "reads": READS, "depth": depth, "ops_per_state": len(all_ops(paths))}
+    run_.bounds = {"paths": paths, "writes": [list(w) for w in WRITES], "reads": READS, "depth": depth, "ops_per_state": len(all_ops(paths))}
     res = explore(FsWorld(paths=list(paths)), procs=NPROC, check_cycles=False, max_depth=depth, validate_stride=997, validate_terminals=0, n_samples=1,
                   max_states=400_000)
     # a depth cap is the stated bound, not an unexpected truncation
